@@ -137,7 +137,7 @@ func (r *Run) Bin(name string) string {
 // change of an internal dtail API breaks at most the in-process tier that uses
 // it; the drivers and the end-to-end tiers keep working.
 var workerOf = map[string]string{
-	"server": "server", "c03api": "c03", "c04api": "c04", "c05": "mapr", "c11": "mapr", "c11conc": "mapr", "c06merge": "mapr", "c06agg": "mapr", "c15noncum": "mapr",
+	"server": "server", "c03api": "c03", "c04api": "c04", "c05": "mapr", "c05wire": "mapr", "c11": "mapr", "c11conc": "mapr", "c06merge": "mapr", "c06agg": "mapr", "c15noncum": "mapr",
 	"c08api": "c08", "c10handler": "c10", "c16pure": "c16", "c16conc": "c16", "c16handler": "c16", "c16table": "c16", "c18api": "c18",
 }
 
